@@ -397,7 +397,7 @@ namespace hv
         unsigned long long seed = 1;
         int solo = 1;
         bool use_tape = false, emit_tape = false;
-        int instr = 0;
+        int instr = 0, instr_target = 0;
         std::vector<long long> tape;
         {
             std::istringstream in(all.text);
@@ -415,7 +415,13 @@ namespace hv
                     continue;
                 }
                 if (line.rfind("emit_simtape", 0) == 0) { emit_tape = true; continue; }
-                if (line.rfind("instr ", 0) == 0) { instr = std::stoi(line.substr(6)); continue; }
+                if (line.rfind("instr ", 0) == 0)
+                {   // instr <mean interval> [<target modulus>]
+                    std::istringstream is(line.substr(6));
+                    is >> instr;
+                    is >> instr_target;
+                    continue;
+                }
                 if (line.rfind("solo ", 0) == 0) { solo = std::stoi(line.substr(5)); continue; }
                 if (!texts.empty()) { texts.back() += line; texts.back() += "\n"; }
             }
@@ -445,6 +451,7 @@ namespace hv
         cfg.tape        = tape;
         cfg.record_tape = emit_tape;
         cfg.instr_interval = instr;
+        cfg.instr_target_mod = instr_target;
         sim::configure(cfg);
         sim::set_log(false);
         for (auto &j : jobs)
